@@ -491,7 +491,9 @@ func VH_C12_U1_truncated() {
 	vrt.DeadlockIsViolation()
 	s := newSrv(int64(vrt.Choice("body_in_c", 2) * 4096))
 	s.prefill()
-	full := cat("set k 3 0 4\r\n", vrt.Bytes("body", 4), "\r\n")
+	// every storage verb that carries a body (the unsupported ones still have to consume it)
+	verb := []string{"set k 3 0 4", "add k2 3 0 4", "replace k 3 0 4", "cas k 3 0 4 9", "append k 3 0 4", "prepend k 3 0 4", "set k 3 0 4 noreply"}[vrt.Choice("verb", 7)]
+	full := cat(verb, "\r\n", vrt.Bytes("body", 4), "\r\n")
 	cut := vrt.Choice("cut", len(full)) // keep 0..len-1 bytes
 	out, closed, _ := s.exchange(full[:cut], 2)
 	n, ok := countReplies(out)
